@@ -712,6 +712,20 @@ def gen_tx(rng, mdib, counter):
                   'state_handle': None if rng.random() < 0.6 else f'verif.cs.{counter[0]}'}
         else:
             tx = {'tx': 'context_new', 'descriptor': rng.choice(ctxd)}
+    elif r < 0.62 and systems:
+        # entities made with entities.new_entity and written with write_entity / write_entities (create); the application
+        # keeps its entity objects afterwards (see handed_in / provider_reads)
+        ents = []
+        for _ in range(rng.choice([1, 1, 2])):
+            counter[0] += 1
+            if rng.random() < 0.6:
+                src = some(metrics, 0, 3)
+                ents.append({'kind': 'AlertConditionDescriptor', 'handle': f'verif.{counter[0]}', 'parent': rng.choice(systems),
+                             'set': {'Source': src}})
+            else:
+                ents.append({'kind': 'AlertSignalDescriptor', 'handle': f'verif.{counter[0]}', 'parent': rng.choice(systems),
+                             'set': {'ConditionSignaled': rng.choice([*conds, None]) if conds else None}})
+        tx = {'tx': 'entity_new', 'entities': ents, 'plural': rng.random() < 0.4, 'adjust': rng.random() < 0.8}
     elif r < 0.68 and (conds or signals):
         # write_entity, mostly with adjust_version_counter=False: the report carries the *same* DescriptorVersion
         # although an indexed attribute changes (an application that manages version counters itself)
@@ -876,11 +890,35 @@ def run_tx(mdib, tx):
                     st.ContextAssociation = pm_types.ContextAssociation(tx['assoc'])
                 if tx['abort']:
                     raise _Abort
+        elif kind == 'entity_new':
+            ents = []
+            for e in tx['entities']:
+                ent = mdib.entities.new_entity(getattr(q, e['kind']), e['handle'], e['parent'])
+                for a, v in e['set'].items():
+                    setattr(ent.descriptor, a, list(v) if isinstance(v, list) else v)
+                if e['kind'] == 'AlertSignalDescriptor':
+                    ent.descriptor.Manifestation = pm_types.AlertSignalManifestation.VIS
+                    ent.descriptor.Latching = False
+                else:
+                    ent.descriptor.Kind = pm_types.AlertConditionKind.TECHNICAL
+                    ent.descriptor.Priority = pm_types.AlertConditionPriority.LOW
+                ents.append(ent)
+                handed_in(mdib, ent)
+            with mdib.descriptor_transaction() as tr:
+                if tx['plural']:
+                    tr.write_entities(ents, adjust_version_counter=tx['adjust'])
+                else:
+                    for ent in ents:
+                        tr.write_entity(ent, adjust_version_counter=tx['adjust'])
+                if tx['abort']:
+                    raise _Abort
+                STAGE[0] = 'commit'
         elif kind == 'entity':
             entity = mdib.entities.by_handle(tx['handle'])
             entity.descriptor = copy.deepcopy(entity.descriptor)     # never write to the table's object directly
             for a, v in tx['set'].items():
                 setattr(entity.descriptor, a, v)
+            handed_in(mdib, entity)
             with mdib.descriptor_transaction() as tr:
                 tr.write_entity(entity, adjust_version_counter=tx['adjust'])
                 if tx['abort']:
@@ -946,6 +984,7 @@ def run_tx(mdib, tx):
                         other.DescriptorHandle = s['descriptor']
                         entity.states = {k: copy.deepcopy(v) for k, v in entity.states.items()}
                         entity.states[other.Handle] = other
+                        handed_in(mdib, entity)
                         tr.write_entity(entity)
                 if tx['abort']:
                     raise _Abort
@@ -980,6 +1019,18 @@ def late_write(container, tables, seen):
                     v.append('verif.late')
                 n += 1
     return n
+
+
+def handed_in(mdib, entity):
+    """The application hands an entity to write_entity / write_entities and keeps it: remember its containers (write_entity
+    promises to store copies, so later edits of the application's objects must not be visible in the mdib)."""
+    reg = mdib.__dict__.setdefault('_verif_handed_in', [])
+    reg.append(entity.descriptor)
+    if getattr(entity, 'is_multi_state', False):
+        reg.extend(entity.states.values())
+    elif getattr(entity, 'state', None) is not None:
+        reg.append(entity.state)
+    del reg[:-40]
 
 
 def _tables(mdib):
@@ -1019,9 +1070,15 @@ def provider_reads(mdib, ctx=None):
     for c in handed:
         if id(c) not in stored:
             n += late_write(c, _tables(mdib), seen)
+    # ... and the entities it handed in through the entity interface and still holds
+    m = 0
+    for c in mdib.__dict__.get('_verif_handed_in', []):
+        if id(c) not in stored:
+            m += late_write(c, _tables(mdib), seen)
     if ctx is not None:
         ctx.count('provider-late-writes', n)
-    return n
+        ctx.count('provider-late-writes-into-handed-in-entities', m)
+    return n + m
 
 
 def provider_step(mdib, tx, ctx=None):
